@@ -3,7 +3,6 @@ package macm
 import (
 	"bytes"
 	"crypto/aes"
-	"crypto/cipher"
 	"crypto/des"
 	"encoding/hex"
 	"fmt"
@@ -16,41 +15,44 @@ import (
 	"github.com/emmansun/gmsm/sm4"
 )
 
-// The tests in this file compare the library with the model. Tests named
-// TestDefect* / subtests that t.Log "DISAGREE" document library deviations;
-// they FAIL while the library deviates (the model is never adapted).
+// Layout of this file:
+//
+//	TestSelfTest, TestPad   model only, must always pass
+//	TestAgree*              library == model; pass on the pinned tree
+//	TestDefect*             library != model (model follows the standard);
+//	                        these FAIL while the library deviates. The model
+//	                        is never adapted.
 
 type ciph struct {
-	name     string
-	nb       NewBlock
-	key      []byte // master / first key
-	key2     []byte // second key for two key constructions
-	lmacOK   bool   // len(key) == block size, so the library's LMAC derivation is usable
-	blockLen int
+	name      string
+	nb        NewBlock
+	key, key2 []byte
+	n         int // block length
 }
 
-func ciphers() []ciph {
-	seq := func(n int, start byte) []byte {
-		b := make([]byte, n)
-		for i := range b {
-			b[i] = start + byte(i)*7
-		}
-		return b
+func seq(n int, start byte) []byte {
+	b := make([]byte, n)
+	for i := range b {
+		b[i] = start + byte(i)*7
 	}
-	return []ciph{
-		{"SM4", sm4.NewCipher, seq(16, 1), seq(16, 0x41), true, 16},
-		{"AES128", aes.NewCipher, seq(16, 2), seq(16, 0x51), true, 16},
-		{"AES256", aes.NewCipher, seq(32, 3), seq(32, 0x61), false, 16},
-		{"DES", des.NewCipher, seq(8, 4), seq(8, 0x71), true, 8},
-		{"3DES", des.NewTripleDESCipher, seq(24, 5), seq(24, 0x81), false, 8},
-	}
+	return b
 }
 
-var pads = []struct {
+var ciphers = []ciph{
+	{"SM4", sm4.NewCipher, seq(16, 1), seq(16, 0x41), 16},
+	{"AES128", aes.NewCipher, seq(16, 2), seq(16, 0x51), 16},
+	{"AES256", aes.NewCipher, seq(32, 3), seq(32, 0x61), 16},
+	{"DES", des.NewCipher, seq(8, 4), seq(8, 0x71), 8},
+	{"3DES", des.NewTripleDESCipher, seq(24, 5), seq(24, 0x81), 8},
+}
+
+type padOpt struct {
 	id   int
 	name string
 	f    padding.NewPaddingFunc
-}{
+}
+
+var pads = []padOpt{
 	{PadM2, "M2", padding.NewISO9797M2Padding},
 	{PadM3, "M3", padding.NewISO9797M3Padding},
 	{PadPKCS7, "PKCS7", padding.NewPKCS7Padding},
@@ -69,7 +71,7 @@ func message(n int) []byte {
 // write into spare capacity (that hazard is tested separately).
 func exact(m []byte) []byte { return append(make([]byte, 0, len(m)), m...) }
 
-// try calls f and turns a panic into an error string.
+// try calls f and turns a panic into a string.
 func try(f func() []byte) (out []byte, panicked string) {
 	defer func() {
 		if r := recover(); r != nil {
@@ -79,12 +81,11 @@ func try(f func() []byte) (out []byte, panicked string) {
 	return f(), ""
 }
 
-// mismatch collects disagreements compactly: one line per (size) set and length list.
+// mismatch collects disagreements compactly.
 type mismatch struct {
-	lens  map[int]bool
-	sizes map[int]bool
-	first string
-	n     int
+	lens, sizes map[int]bool
+	first       string
+	n           int
 }
 
 func (m *mismatch) add(l, size int, detail string) {
@@ -96,54 +97,43 @@ func (m *mismatch) add(l, size int, detail string) {
 	m.n++
 }
 
-func keys(m map[int]bool) string {
-	var s []int
-	for i := 0; i <= 200; i++ {
-		if m[i] {
-			s = append(s, i)
-		}
-	}
-	// compress into ranges
+func ranges(m map[int]bool) string {
 	out := ""
-	for i := 0; i < len(s); {
+	for i := 0; i <= 200; i++ {
+		if !m[i] {
+			continue
+		}
 		j := i
-		for j+1 < len(s) && s[j+1] == s[j]+1 {
+		for m[j+1] {
 			j++
 		}
 		if out != "" {
 			out += ","
 		}
 		if j > i {
-			out += fmt.Sprintf("%d-%d", s[i], s[j])
+			out += fmt.Sprintf("%d-%d", i, j)
 		} else {
-			out += fmt.Sprint(s[i])
+			out += fmt.Sprint(i)
 		}
-		i = j + 1
+		i = j
 	}
 	return out
 }
 
 func (m *mismatch) report(t *testing.T, what string) {
 	t.Helper()
-	if m.n == 0 {
-		return
-	}
-	t.Errorf("DISAGREE %s: %d cases, lengths {%s}, sizes {%s}; first: %s", what, m.n, keys(m.lens), keys(m.sizes), m.first)
-}
-
-func TestSelfTest(t *testing.T) {
-	if err := SelfTest(sm4.NewCipher); err != nil {
-		t.Fatal(err)
+	if m.n > 0 {
+		t.Errorf("DISAGREE %s: %d cases, lengths {%s}, sizes {%s}; first: %s", what, m.n, ranges(m.lens), ranges(m.sizes), m.first)
 	}
 }
 
-// sweep compares lib(size,msg) against model(size,msg) for lengths 0..100 and sizes 1..n.
-func sweep(t *testing.T, what string, n int, lib func(size int, msg []byte) []byte, model func(size int, msg []byte) ([]byte, error)) {
+// sweep compares lib against model for message lengths 0..100 and tag sizes sizes.
+func sweep(t *testing.T, what string, sizes []int, lib func(size int, msg []byte) []byte, model func(size int, msg []byte) ([]byte, error)) {
 	t.Helper()
 	var mm mismatch
 	for l := 0; l <= 100; l++ {
 		msg := message(l)
-		for size := 1; size <= n; size++ {
+		for _, size := range sizes {
 			want, err := model(size, msg)
 			if err != nil {
 				t.Fatalf("%s: model error len=%d size=%d: %v", what, l, size, err)
@@ -163,126 +153,320 @@ func sweep(t *testing.T, what string, n int, lib func(size int, msg []byte) []by
 	mm.report(t, what)
 }
 
-func TestPaddedConstructions(t *testing.T) {
-	for _, c := range ciphers() {
-		for _, p := range pads {
-			c, p := c, p
-			name := c.name + "/" + p.name
-			t.Run("CBCMAC/"+name, func(t *testing.T) {
-				b, _ := c.nb(c.key)
-				sweep(t, "CBCMAC/"+name, c.blockLen,
-					func(size int, m []byte) []byte { return cbcmac.NewCBCMACWithPadding(b, size, p.f).MAC(m) },
-					func(size int, m []byte) ([]byte, error) { return CBCMAC(c.nb, c.key, p.id, size, m) })
-			})
-			t.Run("EMAC/"+name, func(t *testing.T) {
-				sweep(t, "EMAC/"+name, c.blockLen,
-					func(size int, m []byte) []byte {
-						return cbcmac.NewEMACWithPadding(c.nb, c.key, c.key2, size, p.f).MAC(m)
-					},
-					func(size int, m []byte) ([]byte, error) { return EMAC(c.nb, c.key, c.key2, p.id, size, m) })
-			})
-			t.Run("ANSI/"+name, func(t *testing.T) {
-				sweep(t, "ANSI/"+name, c.blockLen,
-					func(size int, m []byte) []byte {
-						return cbcmac.NewANSIRetailMACWithPadding(c.nb, c.key, c.key2, size, p.f).MAC(m)
-					},
-					func(size int, m []byte) ([]byte, error) { return ANSIRetailMAC(c.nb, c.key, c.key2, p.id, size, m) })
-			})
-			t.Run("MACDES/"+name, func(t *testing.T) {
-				sweep(t, "MACDES/"+name, c.blockLen,
-					func(size int, m []byte) []byte {
-						return cbcmac.NewMACDESWithPadding(c.nb, c.key, c.key2, size, p.f).MAC(m)
-					},
-					func(size int, m []byte) ([]byte, error) { return MACDES(c.nb, c.key, c.key2, p.id, size, m) })
-			})
-			t.Run("LMAC/"+name, func(t *testing.T) {
-				sweep(t, "LMAC/"+name, c.blockLen,
-					func(size int, m []byte) []byte { return cbcmac.NewLMACWithPadding(c.nb, c.key, size, p.f).MAC(m) },
-					func(size int, m []byte) ([]byte, error) { return LMAC(c.nb, c.key, p.id, size, m) })
-			})
-			// LMAC at full tag size only, so that the "size ignored" defect does not hide anything else.
-			t.Run("LMACfull/"+name, func(t *testing.T) {
-				var mm mismatch
-				for l := 0; l <= 100; l++ {
-					msg := message(l)
-					want, err := LMAC(c.nb, c.key, p.id, c.blockLen, msg)
-					if err != nil {
-						t.Fatal(err)
-					}
-					got, pn := try(func() []byte {
-						return cbcmac.NewLMACWithPadding(c.nb, c.key, c.blockLen, p.f).MAC(exact(msg))
-					})
-					if pn != "" {
-						mm.add(l, c.blockLen, "library panics: "+pn)
-					} else if !bytes.Equal(got, want) {
-						mm.add(l, c.blockLen, fmt.Sprintf("len=%d lib=%x model=%x", l, got, want))
-					}
-				}
-				mm.report(t, "LMACfull/"+name)
-			})
+func upTo(n int) []int {
+	var s []int
+	for i := 1; i <= n; i++ {
+		s = append(s, i)
+	}
+	return s
+}
+
+// ---------------------------------------------------------------- model only
+
+func TestSelfTest(t *testing.T) {
+	if err := SelfTest(sm4.NewCipher); err != nil {
+		t.Fatal(err)
+	}
+}
+
+func TestPad(t *testing.T) {
+	for _, v := range []struct {
+		pad, n int
+		msg    string
+		want   string
+	}{
+		{PadM1, 8, "", "0000000000000000"},
+		{PadM1, 8, "aabbcc", "aabbcc0000000000"},
+		{PadM1, 8, "0102030405060708", "0102030405060708"},
+		{PadM2, 8, "", "8000000000000000"},
+		{PadM2, 8, "aabbcc", "aabbcc8000000000"},
+		{PadM2, 8, "0102030405060708", "01020304050607088000000000000000"},
+		{PadM3, 8, "", "00000000000000000000000000000000"},
+		{PadM3, 8, "aabbcc", "0000000000000018aabbcc0000000000"},
+		{PadM3, 8, "0102030405060708", "00000000000000400102030405060708"},
+		{PadM3, 16, "aabbcc", "00000000000000000000000000000018aabbcc00000000000000000000000000"},
+		{PadPKCS7, 8, "aabbcc", "aabbcc0505050505"},
+		{PadPKCS7, 8, "0102030405060708", "01020304050607080808080808080808"},
+		{PadX923, 8, "aabbcc", "aabbcc0000000005"},
+		{PadNone, 8, "0102030405060708", "0102030405060708"},
+	} {
+		msg, _ := hex.DecodeString(v.msg)
+		got, err := Pad(v.pad, v.n, msg)
+		if err != nil || hex.EncodeToString(got) != v.want {
+			t.Errorf("Pad(%d,%d,%s) = %x, %v; want %s", v.pad, v.n, v.msg, got, err, v.want)
+		}
+	}
+	for _, l := range []int{0, 3, 9} {
+		if _, err := Pad(PadNone, 8, make([]byte, l)); err == nil {
+			t.Errorf("PadNone accepted length %d", l)
 		}
 	}
 }
 
-// The default constructors must be padding method 2.
-func TestDefaultConstructors(t *testing.T) {
-	for _, c := range ciphers() {
-		c := c
+// ------------------------------------------------- algorithms 1-4 and 6 (padded)
+
+type padded struct {
+	name  string
+	lib   func(c ciph, p padOpt, size int, m []byte) []byte
+	model func(c ciph, p padOpt, size int, m []byte) ([]byte, error)
+}
+
+var paddedAlgs = []padded{
+	{"CBCMAC",
+		func(c ciph, p padOpt, size int, m []byte) []byte {
+			b, _ := c.nb(c.key)
+			return cbcmac.NewCBCMACWithPadding(b, size, p.f).MAC(m)
+		},
+		func(c ciph, p padOpt, size int, m []byte) ([]byte, error) { return CBCMAC(c.nb, c.key, p.id, size, m) }},
+	{"EMAC",
+		func(c ciph, p padOpt, size int, m []byte) []byte {
+			return cbcmac.NewEMACWithPadding(c.nb, c.key, c.key2, size, p.f).MAC(m)
+		},
+		func(c ciph, p padOpt, size int, m []byte) ([]byte, error) {
+			return EMAC(c.nb, c.key, c.key2, p.id, size, m)
+		}},
+	{"ANSI",
+		func(c ciph, p padOpt, size int, m []byte) []byte {
+			return cbcmac.NewANSIRetailMACWithPadding(c.nb, c.key, c.key2, size, p.f).MAC(m)
+		},
+		func(c ciph, p padOpt, size int, m []byte) ([]byte, error) {
+			return ANSIRetailMAC(c.nb, c.key, c.key2, p.id, size, m)
+		}},
+	{"MACDES",
+		func(c ciph, p padOpt, size int, m []byte) []byte {
+			return cbcmac.NewMACDESWithPadding(c.nb, c.key, c.key2, size, p.f).MAC(m)
+		},
+		func(c ciph, p padOpt, size int, m []byte) ([]byte, error) {
+			return MACDES(c.nb, c.key, c.key2, p.id, size, m)
+		}},
+	{"LMAC",
+		func(c ciph, p padOpt, size int, m []byte) []byte {
+			return cbcmac.NewLMACWithPadding(c.nb, c.key, size, p.f).MAC(m)
+		},
+		func(c ciph, p padOpt, size int, m []byte) ([]byte, error) { return LMAC(c.nb, c.key, p.id, size, m) }},
+}
+
+// Where the pinned library is expected to agree: every padding on 16 byte
+// blocks, every padding but method 3 on 8 byte blocks; LMAC only at full tag
+// size and only when len(key) == block length.
+func TestAgreePadded(t *testing.T) {
+	for _, a := range paddedAlgs {
+		for _, c := range ciphers {
+			for _, p := range pads {
+				if p.id == PadM3 && c.n == 8 {
+					continue // TestDefectM3On8ByteBlocks
+				}
+				sizes := upTo(c.n)
+				if a.name == "LMAC" {
+					if len(c.key) != c.n {
+						continue // TestDefectLMACKeyLength
+					}
+					sizes = []int{c.n} // TestDefectLMACSize
+				}
+				what := a.name + "/" + c.name + "/" + p.name
+				sweep(t, what, sizes,
+					func(size int, m []byte) []byte { return a.lib(c, p, size, m) },
+					func(size int, m []byte) ([]byte, error) { return a.model(c, p, size, m) })
+			}
+		}
+	}
+}
+
+// The constructors without a padding argument use padding method 2.
+func TestAgreeDefaultPaddingIsM2(t *testing.T) {
+	for _, c := range ciphers {
 		b, _ := c.nb(c.key)
-		n := c.blockLen
-		sweep(t, "NewCBCMAC/"+c.name, n,
+		sizes := []int{1, c.n / 2, c.n}
+		sweep(t, "NewCBCMAC/"+c.name, sizes,
 			func(size int, m []byte) []byte { return cbcmac.NewCBCMAC(b, size).MAC(m) },
 			func(size int, m []byte) ([]byte, error) { return CBCMAC(c.nb, c.key, PadM2, size, m) })
-		sweep(t, "NewEMAC/"+c.name, n,
+		sweep(t, "NewEMAC/"+c.name, sizes,
 			func(size int, m []byte) []byte { return cbcmac.NewEMAC(c.nb, c.key, c.key2, size).MAC(m) },
 			func(size int, m []byte) ([]byte, error) { return EMAC(c.nb, c.key, c.key2, PadM2, size, m) })
-		sweep(t, "NewANSIRetailMAC/"+c.name, n,
+		sweep(t, "NewANSIRetailMAC/"+c.name, sizes,
 			func(size int, m []byte) []byte { return cbcmac.NewANSIRetailMAC(c.nb, c.key, c.key2, size).MAC(m) },
 			func(size int, m []byte) ([]byte, error) { return ANSIRetailMAC(c.nb, c.key, c.key2, PadM2, size, m) })
-		sweep(t, "NewMACDES/"+c.name, n,
+		sweep(t, "NewMACDES/"+c.name, sizes,
 			func(size int, m []byte) []byte { return cbcmac.NewMACDES(c.nb, c.key, c.key2, size).MAC(m) },
 			func(size int, m []byte) ([]byte, error) { return MACDES(c.nb, c.key, c.key2, PadM2, size, m) })
+		if len(c.key) == c.n {
+			sweep(t, "NewLMAC/"+c.name, []int{c.n},
+				func(size int, m []byte) []byte { return cbcmac.NewLMAC(c.nb, c.key, size).MAC(m) },
+				func(size int, m []byte) ([]byte, error) { return LMAC(c.nb, c.key, PadM2, size, m) })
+		}
 	}
 }
 
-func TestUnpaddedConstructions(t *testing.T) {
-	for _, c := range ciphers() {
-		c := c
+// (b) LMAC ignores the requested tag size (Size() and the returned slice).
+func TestDefectLMACSize(t *testing.T) {
+	for _, c := range ciphers {
+		if len(c.key) != c.n {
+			continue
+		}
+		if got := cbcmac.NewLMAC(c.nb, c.key, c.n/2).Size(); got != c.n/2 {
+			t.Errorf("DISAGREE LMAC/%s: NewLMAC(size=%d).Size() = %d", c.name, c.n/2, got)
+		}
+		for _, p := range pads {
+			if p.id == PadM3 && c.n == 8 {
+				continue
+			}
+			a := paddedAlgs[4]
+			sweep(t, "LMAC/"+c.name+"/"+p.name, upTo(c.n-1),
+				func(size int, m []byte) []byte { return a.lib(c, p, size, m) },
+				func(size int, m []byte) ([]byte, error) { return a.model(c, p, size, m) })
+		}
+	}
+}
+
+// LMAC with len(key) != block length. The model's derivation for this case is
+// from memory of ISO/IEC 9797-1:2011 (derived keys have the length of the
+// master key); the library always derives block length keys.
+func TestDefectLMACKeyLength(t *testing.T) {
+	for _, c := range ciphers {
+		if len(c.key) == c.n {
+			continue
+		}
+		a := paddedAlgs[4]
+		sweep(t, "LMAC/"+c.name+"/M2 (key "+fmt.Sprint(len(c.key))+" bytes, block "+fmt.Sprint(c.n)+")", []int{c.n},
+			func(size int, m []byte) []byte { return a.lib(c, pads[0], size, m) },
+			func(size int, m []byte) ([]byte, error) { return a.model(c, pads[0], size, m) })
+	}
+}
+
+// (d) Padding method 3 on 8 byte blocks: the library writes the length at byte
+// offset 8 (on top of the first data block) instead of into the 8 byte block L.
+func TestDefectM3On8ByteBlocks(t *testing.T) {
+	for _, a := range paddedAlgs {
+		for _, c := range ciphers {
+			if c.n != 8 || (a.name == "LMAC" && len(c.key) != c.n) {
+				continue
+			}
+			sizes := upTo(c.n)
+			if a.name == "LMAC" {
+				sizes = []int{c.n}
+			}
+			sweep(t, a.name+"/"+c.name+"/M3", sizes,
+				func(size int, m []byte) []byte { return a.lib(c, pads[1], size, m) },
+				func(size int, m []byte) ([]byte, error) { return a.model(c, pads[1], size, m) })
+		}
+	}
+}
+
+// (d) Source slice with spare capacity. A MAC must not write to its input nor
+// to the memory behind it.
+func TestDefectSpareCapacity(t *testing.T) {
+	for _, c := range []ciph{ciphers[0], ciphers[3]} { // SM4, DES
 		b, _ := c.nb(c.key)
-		t.Run("CMAC/"+c.name, func(t *testing.T) {
-			sweep(t, "CMAC/"+c.name, c.blockLen,
-				func(size int, m []byte) []byte { return cbcmac.NewCMAC(b, size).MAC(m) }, // fresh object every time
-				func(size int, m []byte) ([]byte, error) { return CMAC(c.nb, c.key, size, m) })
-		})
-		t.Run("TRCBC/"+c.name, func(t *testing.T) {
-			sweep(t, "TRCBC/"+c.name, c.blockLen,
-				func(size int, m []byte) []byte { return cbcmac.NewTRCBCMAC(b, size).MAC(m) },
-				func(size int, m []byte) ([]byte, error) { return TRCBCMAC(c.nb, c.key, size, m) })
-		})
-		t.Run("CBCR/"+c.name, func(t *testing.T) {
-			sweep(t, "CBCR/"+c.name, c.blockLen,
-				func(size int, m []byte) []byte { return cbcmac.NewCBCRMAC(b, size).MAC(m) },
-				func(size int, m []byte) ([]byte, error) { return CBCRMAC(c.nb, c.key, size, m) })
-		})
-		// The library must at least be exactly the shift variant, nothing else.
-		t.Run("CBCRvsDefectModel/"+c.name, func(t *testing.T) {
-			sweep(t, "CBCRvsDefectModel/"+c.name, c.blockLen,
-				func(size int, m []byte) []byte { return cbcmac.NewCBCRMAC(b, size).MAC(m) },
-				func(size int, m []byte) ([]byte, error) { return CBCRMACDefect(c.nb, c.key, size, m) })
-		})
+		for _, p := range pads {
+			var panics, wrongTag, msgChanged, behind mismatch
+			for l := 0; l <= 100; l++ {
+				msg := message(l)
+				buf := bytes.Repeat([]byte{0xEE}, l+64) // message followed by 64 bytes of other live data
+				copy(buf, msg)
+				in := buf[:l]
+				// Judge the tag against what the library itself returns for a src without spare
+				// capacity, so that this test shows the aliasing hazard only.
+				want := cbcmac.NewCBCMACWithPadding(b, c.n, p.f).MAC(exact(msg))
+				got, pn := try(func() []byte { return cbcmac.NewCBCMACWithPadding(b, c.n, p.f).MAC(in) })
+				if pn != "" {
+					panics.add(l, c.n, fmt.Sprintf("len=%d panic %s", l, pn))
+					continue
+				}
+				if !bytes.Equal(got, want) {
+					wrongTag.add(l, c.n, fmt.Sprintf("len=%d tag %x, with exact capacity %x", l, got, want))
+				}
+				if !bytes.Equal(in, msg) {
+					msgChanged.add(l, c.n, fmt.Sprintf("len=%d caller's message now %x was %x", l, in, msg))
+				}
+				if !bytes.Equal(buf[l:], bytes.Repeat([]byte{0xEE}, 64)) {
+					behind.add(l, c.n, fmt.Sprintf("len=%d bytes behind the message now %x...", l, buf[l:l+20]))
+				}
+			}
+			what := "CBCMAC/" + c.name + "/" + p.name + " src=buf[:len] with cap>len: "
+			panics.report(t, what+"PANIC")
+			wrongTag.report(t, what+"TAG DIFFERS from exact-capacity call")
+			msgChanged.report(t, what+"CALLER'S MESSAGE BYTES CHANGED")
+			behind.report(t, what+"bytes behind the message overwritten")
+		}
 	}
 }
 
-// (c) CBCR: left rotation implemented as shift -> trivial collision.
+// ------------------------------------------------- algorithms 5, 7, 8 (own padding)
+
+func TestAgreeTRCBC(t *testing.T) {
+	for _, c := range ciphers {
+		b, _ := c.nb(c.key)
+		sweep(t, "TRCBC/"+c.name, upTo(c.n),
+			func(size int, m []byte) []byte { return cbcmac.NewTRCBCMAC(b, size).MAC(m) },
+			func(size int, m []byte) ([]byte, error) { return TRCBCMAC(c.nb, c.key, size, m) })
+	}
+}
+
+// One shot MAC() on a FRESH object, 16 byte blocks.
+func TestAgreeCMACFresh(t *testing.T) {
+	for _, c := range ciphers {
+		if c.n != 16 {
+			continue
+		}
+		b, _ := c.nb(c.key)
+		sweep(t, "CMAC/"+c.name, upTo(c.n),
+			func(size int, m []byte) []byte { return cbcmac.NewCMAC(b, size).MAC(m) },
+			func(size int, m []byte) ([]byte, error) { return CMAC(c.nb, c.key, size, m) })
+	}
+}
+
+// CMAC over a 64 bit block cipher needs R_64 = 0x1b; the library always uses
+// 0x87. Visible whenever the top bit of L or K1 is set, e.g. NIST's own TDEA key.
+func TestDefectCMAC64BitBlocks(t *testing.T) {
+	nist, _ := hex.DecodeString("8aa83bf8cbda10620bc1bf19fbb6cd58bc313d4a371ca8b5")
+	b, _ := des.NewTripleDESCipher(nist)
+	msg, _ := hex.DecodeString("6bc1bee22e409f96e93d7e117393172aae2d8a57")
+	if got := cbcmac.NewCMAC(b, 8).MAC(exact(msg)); hex.EncodeToString(got) != "743ddbe0ce2dc2ed" {
+		t.Errorf("DISAGREE CMAC/TDEA NIST SP 800-38B example Mlen=160: lib=%x, NIST (and model) = 743ddbe0ce2dc2ed", got)
+	}
+	for _, c := range ciphers {
+		if c.n != 8 {
+			continue
+		}
+		for k := 0; k < 8; k++ { // several keys: the bug needs msb(L)=1 or msb(K1)=1
+			key := seq(len(c.key), byte(16*k+3))
+			b, _ := c.nb(key)
+			sweep(t, fmt.Sprintf("CMAC/%s/key#%d", c.name, k), upTo(c.n),
+				func(size int, m []byte) []byte { return cbcmac.NewCMAC(b, size).MAC(m) },
+				func(size int, m []byte) ([]byte, error) { return CMAC(c.nb, key, size, m) })
+		}
+	}
+}
+
+// The library's CBCR must at least be exactly the "shift" variant.
+func TestAgreeCBCRWithDefectModel(t *testing.T) {
+	for _, c := range ciphers {
+		b, _ := c.nb(c.key)
+		sweep(t, "CBCR(lib) vs CBCRMACDefect/"+c.name, upTo(c.n),
+			func(size int, m []byte) []byte { return cbcmac.NewCBCRMAC(b, size).MAC(m) },
+			func(size int, m []byte) ([]byte, error) { return CBCRMACDefect(c.nb, c.key, size, m) })
+	}
+}
+
+// (c) CBCR: the left rotation of the padded branch is a shift.
+func TestDefectCBCR(t *testing.T) {
+	for _, c := range ciphers {
+		b, _ := c.nb(c.key)
+		sweep(t, "CBCR/"+c.name, upTo(c.n),
+			func(size int, m []byte) []byte { return cbcmac.NewCBCRMAC(b, size).MAC(m) },
+			func(size int, m []byte) ([]byte, error) { return CBCRMAC(c.nb, c.key, size, m) })
+	}
+}
+
 func TestDefectCBCRCollision(t *testing.T) {
-	key := ciphers()[0].key
-	b, _ := sm4.NewCipher(key)
+	c := ciphers[0]
+	b, _ := c.nb(c.key)
 	m0 := []byte{0, 0, 0, 0, 0}
 	m1 := []byte{0x80, 0, 0, 0, 0}
 	l0 := cbcmac.NewCBCRMAC(b, 16).MAC(exact(m0))
 	l1 := cbcmac.NewCBCRMAC(b, 16).MAC(exact(m1))
-	r0, _ := CBCRMAC(sm4.NewCipher, key, 16, m0)
-	r1, _ := CBCRMAC(sm4.NewCipher, key, 16, m1)
+	r0, _ := CBCRMAC(c.nb, c.key, 16, m0)
+	r1, _ := CBCRMAC(c.nb, c.key, 16, m1)
 	if bytes.Equal(r0, r1) {
 		t.Fatal("model collides, model is broken")
 	}
@@ -291,9 +475,13 @@ func TestDefectCBCRCollision(t *testing.T) {
 	}
 }
 
-// Which of the repository's CBCR vectors fit rotate, which only shift.
-func TestCBCRRepoVectors(t *testing.T) {
+// Which of the repository's own CBCR vectors fit rotate, which only shift.
+func TestDefectCBCRRepoVectors(t *testing.T) {
 	key, _ := hex.DecodeString("0123456789abcdeffedcba9876543210")
+	b, _ := sm4.NewCipher(key)
+	l := make([]byte, 16)
+	b.Encrypt(l, l)
+	t.Logf("e_K(0^128) = %x (top bit %d)", l, l[0]>>7)
 	for i, v := range []struct {
 		msg  []byte
 		want string
@@ -304,106 +492,146 @@ func TestCBCRRepoVectors(t *testing.T) {
 	} {
 		rot, _ := CBCRMAC(sm4.NewCipher, key, 16, v.msg)
 		shf, _ := CBCRMACDefect(sm4.NewCipher, key, 16, v.msg)
-		t.Logf("repo CBCR vector #%d (len %d): want %s rotate-model %x (match=%v) shift-model %x (match=%v)",
+		t.Logf("repo CBCR vector #%d (len %d): want %s; rotate model %x match=%v; shift model %x match=%v",
 			i, len(v.msg), v.want, rot, hex.EncodeToString(rot) == v.want, shf, hex.EncodeToString(shf) == v.want)
 		if hex.EncodeToString(rot) != v.want {
 			t.Errorf("DISAGREE repo CBCR vector #%d does not match the rotate model", i)
 		}
 	}
+	// Observation: vector #0 would also be produced by a ROTATING implementation
+	// that pads the empty message with 0^n instead of 1 0^(n-1).
+	alt := make([]byte, 16)
+	b.Encrypt(alt, rotl1(l))
+	t.Logf("e_K(e_K(0) <<< 1) (rotate, empty message taken as the zero block) = %x", alt)
 }
 
-// (b) LMAC ignores the tag size.
-func TestDefectLMACSize(t *testing.T) {
-	c := ciphers()[0]
-	m := cbcmac.NewLMAC(c.nb, c.key, 8)
-	tag := m.MAC([]byte("abc"))
-	want, _ := LMAC(c.nb, c.key, PadM2, 8, []byte("abc"))
-	if m.Size() != 8 || len(tag) != 8 {
-		t.Errorf("DISAGREE LMAC size=8: library Size()=%d len(tag)=%d tag=%x, model=%x", m.Size(), len(tag), tag, want)
-	}
-	if !bytes.HasPrefix(tag, want) {
-		t.Errorf("library tag %x does not even start with model tag %x", tag, want)
-	}
-}
+// ------------------------------------------------- CMAC as hash.Hash
 
-func newCMACs() []struct {
-	name string
-	c    ciph
-} {
-	var out []struct {
-		name string
-		c    ciph
-	}
-	for _, c := range ciphers() {
-		if c.blockLen == 16 { // 8 byte blocks are wrong already for one shot use (Rb), see TestUnpaddedConstructions
-			out = append(out, struct {
-				name string
-				c    ciph
-			}{c.name, c})
-		}
+func cmacModel(t *testing.T, c ciph, size int, m []byte) []byte {
+	out, err := CMAC(c.nb, c.key, size, m)
+	if err != nil {
+		t.Fatal(err)
 	}
 	return out
 }
 
-// (a) CMAC as hash.Hash: split writes, Sum, Reset, reuse, MAC() after use.
-func TestCMACHashUsage(t *testing.T) {
-	rng := rand.New(rand.NewSource(1))
-	for _, cc := range newCMACs() {
-		c := cc.c
-		b, _ := c.nb(c.key)
-		model := func(size int, m []byte) []byte {
-			out, err := CMAC(c.nb, c.key, size, m)
-			if err != nil {
-				t.Fatal(err)
-			}
-			return out
+func randomCuts(rng *rand.Rand, l int) []int {
+	var cuts []int
+	for l > 0 {
+		k := 1 + rng.Intn(l)
+		if rng.Intn(3) > 0 {
+			k = min(l, 1+rng.Intn(20))
 		}
+		cuts = append(cuts, k)
+		l -= k
+	}
+	return cuts
+}
 
-		t.Run("FreshSplitWrites/"+c.name, func(t *testing.T) {
+// Chunking logic of Write/Sum/Reset in isolation: with all-zero messages stale
+// buffer bytes are zero and cannot hurt, so everything must agree.
+func TestAgreeCMACWriteChunkingZeroMessages(t *testing.T) {
+	rng := rand.New(rand.NewSource(2))
+	for _, c := range ciphers {
+		if c.n != 16 {
+			continue
+		}
+		b, _ := c.nb(c.key)
+		var mm mismatch
+		var h hash.Hash = cbcmac.NewCMAC(b, 16) // one object for everything
+		if h.Size() != 16 || h.BlockSize() != 16 {
+			t.Errorf("Size/BlockSize = %d/%d", h.Size(), h.BlockSize())
+		}
+		for l := 0; l <= 100; l++ {
+			for rep := 0; rep < 20; rep++ {
+				h.Reset()
+				cuts := randomCuts(rng, l)
+				done := 0
+				for _, k := range cuts {
+					h.Write(make([]byte, k))
+					done += k
+					// Sum in the middle must be the MAC of the prefix and must not disturb the state.
+					if got, want := h.Sum([]byte{1, 2}), cmacModel(t, c, 16, make([]byte, done)); !bytes.Equal(got[2:], want) || got[0] != 1 || got[1] != 2 {
+						mm.add(l, 16, fmt.Sprintf("len=%d writes=%v after %d bytes lib=%x model=%x", l, cuts, done, got, want))
+					}
+				}
+				if got, want := h.Sum(nil), cmacModel(t, c, 16, make([]byte, l)); !bytes.Equal(got, want) {
+					mm.add(l, 16, fmt.Sprintf("len=%d writes=%v lib=%x model=%x", l, cuts, got, want))
+				}
+			}
+		}
+		mm.report(t, "CMAC zero messages, split writes, reused object/"+c.name)
+	}
+}
+
+// Reuse is fine once the internal buffer has been scrubbed from outside
+// (Write of a zero block, then Reset): stale bytes are the only reuse problem.
+func TestAgreeCMACReuseAfterScrub(t *testing.T) {
+	rng := rand.New(rand.NewSource(3))
+	for _, c := range ciphers {
+		if c.n != 16 {
+			continue
+		}
+		b, _ := c.nb(c.key)
+		h := cbcmac.NewCMAC(b, 16)
+		var mm mismatch
+		for i := 0; i < 500; i++ {
+			l := rng.Intn(101)
+			msg := message(l)
+			h.Reset()
+			h.Write(make([]byte, 16))
+			h.Reset()
+			h.Write(msg)
+			if got, want := h.Sum(nil), cmacModel(t, c, 16, msg); !bytes.Equal(got, want) {
+				mm.add(l, 16, fmt.Sprintf("iteration %d len=%d lib=%x model=%x", i, l, got, want))
+			}
+		}
+		mm.report(t, "CMAC scrubbed reuse/"+c.name)
+	}
+}
+
+// (a) CMAC folds stale buffer bytes into a short final block.
+func TestDefectCMACStaleBuffer(t *testing.T) {
+	rng := rand.New(rand.NewSource(1))
+	for _, c := range ciphers {
+		if c.n != 16 {
+			continue
+		}
+		b, _ := c.nb(c.key)
+
+		t.Run("FreshObjectWrite16Then5/"+c.name, func(t *testing.T) {
+			msg := message(21)
+			h := cbcmac.NewCMAC(b, 16)
+			h.Write(msg[:16])
+			h.Write(msg[16:])
+			got, want := h.Sum(nil), cmacModel(t, c, 16, msg)
+			one := cbcmac.NewCMAC(b, 16).MAC(exact(msg))
+			if !bytes.Equal(got, want) {
+				t.Errorf("DISAGREE CMAC Write(16)+Write(5) on fresh object: lib=%x model=%x (library's own fresh one-shot MAC()=%x)", got, want, one)
+			}
+		})
+
+		t.Run("FreshObjectRandomSplits/"+c.name, func(t *testing.T) {
 			var mm mismatch
 			for l := 0; l <= 100; l++ {
 				msg := message(l)
 				for rep := 0; rep < 20; rep++ {
 					var h hash.Hash = cbcmac.NewCMAC(b, 16)
-					var cuts []int
-					for rest := msg; len(rest) > 0; {
-						k := 1 + rng.Intn(len(rest))
-						if rng.Intn(3) == 0 {
-							k = min(len(rest), 1+rng.Intn(20))
-						}
+					cuts := randomCuts(rng, l)
+					rest := msg
+					for _, k := range cuts {
 						h.Write(rest[:k])
-						cuts = append(cuts, k)
 						rest = rest[k:]
 					}
-					got := h.Sum(nil)
-					if want := model(16, msg); !bytes.Equal(got, want) {
+					if got, want := h.Sum(nil), cmacModel(t, c, 16, msg); !bytes.Equal(got, want) {
 						mm.add(l, 16, fmt.Sprintf("len=%d writes=%v lib=%x model=%x", l, cuts, got, want))
-					}
-					// Sum must not change state, and must append.
-					if again := h.Sum([]byte{1, 2}); !bytes.Equal(again[2:], got) || again[0] != 1 || again[1] != 2 {
-						t.Errorf("second Sum differs: %x vs %x", again, got)
 					}
 				}
 			}
 			mm.report(t, "CMAC fresh object, split writes/"+c.name)
 		})
 
-		t.Run("Split16plus5/"+c.name, func(t *testing.T) {
-			msg := message(21)
-			h := cbcmac.NewCMAC(b, 16)
-			h.Write(msg[:16])
-			h.Write(msg[16:])
-			got, want := h.Sum(nil), model(16, msg)
-			one := cbcmac.NewCMAC(b, 16).MAC(exact(msg))
-			if !bytes.Equal(one, want) {
-				t.Errorf("fresh one-shot wrong: %x vs %x", one, want)
-			}
-			if !bytes.Equal(got, want) {
-				t.Errorf("DISAGREE CMAC Write(16)+Write(5) on fresh object: lib=%x model=%x (fresh one-shot MAC()=%x)", got, want, one)
-			}
-		})
-
-		t.Run("ResetReuse/"+c.name, func(t *testing.T) {
+		t.Run("ResetWriteSumOnReusedObject/"+c.name, func(t *testing.T) {
 			var mm mismatch
 			h := cbcmac.NewCMAC(b, 16)
 			for i := 0; i < 300; i++ {
@@ -411,8 +639,7 @@ func TestCMACHashUsage(t *testing.T) {
 				msg := message(l)
 				h.Reset()
 				h.Write(msg)
-				got := h.Sum(nil)
-				if want := model(16, msg); !bytes.Equal(got, want) {
+				if got, want := h.Sum(nil), cmacModel(t, c, 16, msg); !bytes.Equal(got, want) {
 					mm.add(l, 16, fmt.Sprintf("iteration %d len=%d lib=%x model=%x", i, l, got, want))
 				}
 			}
@@ -421,13 +648,12 @@ func TestCMACHashUsage(t *testing.T) {
 
 		t.Run("MACOnUsedObject/"+c.name, func(t *testing.T) {
 			var mm mismatch
-			for size := 1; size <= 16; size++ {
+			for _, size := range upTo(16) {
 				h := cbcmac.NewCMAC(b, size)
 				for i := 0; i < 100; i++ {
 					l := rng.Intn(101)
 					msg := message(l)
-					got := h.MAC(exact(msg))
-					if want := model(size, msg); !bytes.Equal(got, want) {
+					if got, want := h.MAC(exact(msg)), cmacModel(t, c, size, msg); !bytes.Equal(got, want) {
 						mm.add(l, size, fmt.Sprintf("size=%d call %d len=%d lib=%x model=%x", size, i, l, got, want))
 					}
 				}
@@ -435,51 +661,13 @@ func TestCMACHashUsage(t *testing.T) {
 			mm.report(t, "CMAC MAC() on previously used object/"+c.name)
 		})
 
-		t.Run("MinimalReuse/"+c.name, func(t *testing.T) {
+		t.Run("MAC16ThenMAC5/"+c.name, func(t *testing.T) {
 			h := cbcmac.NewCMAC(b, 16)
-			long, short := message(16), message(5)
-			h.MAC(long)
-			got, want := h.MAC(short), model(16, short)
-			if !bytes.Equal(got, want) {
+			h.MAC(message(16))
+			short := message(5)
+			if got, want := h.MAC(short), cmacModel(t, c, 16, short); !bytes.Equal(got, want) {
 				t.Errorf("DISAGREE CMAC MAC(16 bytes) then MAC(5 bytes) on same object: lib=%x model=%x", got, want)
 			}
 		})
 	}
 }
-
-// (d) padding method 3 hazards, seen through the MAC API.
-func TestDefectM3SpareCapacity(t *testing.T) {
-	c := ciphers()[0]
-	b, _ := c.nb(c.key)
-	for _, p := range pads {
-		var mm mismatch
-		for l := 0; l <= 100; l++ {
-			msg := message(l)
-			in := make([]byte, l, l+64) // spare capacity
-			copy(in, msg)
-			spare := in[l : l+64]
-			want, _ := CBCMAC(c.nb, c.key, p.id, 16, msg)
-			got, pn := try(func() []byte { return cbcmac.NewCBCMACWithPadding(b, 16, p.f).MAC(in) })
-			switch {
-			case pn != "":
-				mm.add(l, 16, fmt.Sprintf("len=%d panic %s", l, pn))
-			case !bytes.Equal(got, want):
-				mm.add(l, 16, fmt.Sprintf("len=%d wrong tag lib=%x model=%x; caller slice now %x was %x", l, got, want, in, msg))
-			case !bytes.Equal(in, msg):
-				mm.add(l, 16, fmt.Sprintf("len=%d tag ok but caller's message bytes changed", l))
-			case !bytes.Equal(spare, make([]byte, 64)):
-				mm.add(l, 16, fmt.Sprintf("len=%d tag ok, message intact, but spare capacity written: %x", l, spare))
-			}
-		}
-		mm.report(t, "CBCMAC/SM4/"+p.name+" with spare capacity in src")
-	}
-}
-
-func TestLMACKeysAgainstLibraryTestVectorKeys(t *testing.T) {
-	// Observation only: how is key2 of the appendix vectors related to key1?
-	k1, _ := hex.DecodeString("0123456789abcdeffedcba9876543210")
-	a, b, _ := LMACKeys(sm4.NewCipher, k1)
-	t.Logf("e_K(0..01)=%x e_K(0..02)=%x ; appendix K'=4149d2aded9456681ec8b511d9e7ee04", a, b)
-}
-
-var _ cipher.Block
